@@ -76,9 +76,20 @@ def _run_variant(args):
         shutil.rmtree(tmp, ignore_errors=True)
 
 
+# (property, keep-variant of another property) pairs that are *not* behaviour-preserving for that property, one reason each
+CROSS_EXEMPT: dict = {}
+
+
 def run_selftest(pid: str, run: Run, seed: int = 0, jobs: int | None = None) -> None:
     from .variants import VARIANTS
     todo = [v for v in VARIANTS if v[0] == pid]
+    # behaviour-preserving edits written for the other properties must leave this check silent as well
+    own_names = {v[1] for v in todo}
+    seen_cross = set()
+    for v in VARIANTS:
+        if v[0] != pid and v[2] == "keep" and v[1] not in own_names and v[1] not in seen_cross and (pid, v[1]) not in CROSS_EXEMPT:
+            seen_cross.add(v[1])
+            todo.append((pid, "x:" + v[1], "keep", v[3], ""))
     src_root = repo_root()
     base = _findings(pid, src_root)
     jobs = jobs or min(16, max(1, os.cpu_count() or 1))
